@@ -86,7 +86,7 @@ def _plan(draw, big):
     ctrl = draw(st.integers(0, 5)) == 0
     plan = {"cls": cls, "ctrl": ctrl, "settings": draw(_settings())}
     if draw(st.integers(0, 5)) == 0:
-        plan["np_ints"] = draw(st.sampled_from(["uint8", "int8", "int16", "int64", "zerod"]))
+        plan["np_ints"] = draw(st.sampled_from(["uint8", "int8", "int16", "int64", "zerod", "float_width", "float_width"]))
     if cls in ("frame", "geojson") and draw(st.integers(0, 19)) == 0:
         plan["repeat_rows"] = draw(st.sampled_from([300, 1000]))
         plan["np_ints"] = draw(st.sampled_from(["uint8", "int8", "uint8", None]))
@@ -284,10 +284,19 @@ def _exotic(name, n):
     return np.array([bytes([i % 256, 7, 0]) for i in range(n)], dtype="V3")
 
 
+def _arg(k, v, how):
+    """a count / width as the caller might pass it; a width may also be a whole float (the library's own default is inf)"""
+    if how == "float_width":
+        return float(v) if k in ("truncate_width", "PRINT_TRUNCATE_WIDTH") and isinstance(v, int) and not isinstance(v, bool) else v
+    return _np_int(v, how)
+
+
 def _np_int(v, how):
     """a count as the caller might pass it: a narrow NumPy integer scalar or a zero-dimensional array"""
     if how is None or v is None or isinstance(v, bool) or not isinstance(v, int):
         return v
+    if how == "float_width":
+        return v                                   # (only widths are given as floats, see _np_width)
     if how == "zerod":
         return np.array(v)
     info = np.iinfo(how)
@@ -296,7 +305,7 @@ def _np_int(v, how):
 
 def check(plan, ctx):
     how = plan.get("np_ints")
-    _apply_settings({k: (_np_int(v, how) if k.startswith("PRINT_MAX") or k == "PRINT_TRUNCATE_WIDTH" else v) for k, v in plan["settings"].items()})
+    _apply_settings({k: (_arg(k, v, how) if k.startswith("PRINT_MAX") or k == "PRINT_TRUNCATE_WIDTH" else v) for k, v in plan["settings"].items()})
     cls, opts = plan["cls"], dict(plan["opts"])
     if how:
         ctx.cls("counts_as_numpy_" + how)
@@ -348,7 +357,7 @@ def check(plan, ctx):
             data.group_by(list(dict.keys(data))[0])
             ctx.cls("receiver_carries_a_group_by_mark")
         before = build.snap_frame(data)
-        text = _render_all(data, {k: _np_int(v, how) for k, v in opts.items()}, cls)
+        text = _render_all(data, {k: _arg(k, v, how) for k, v in opts.items()}, cls)
         if build.snap_frame(data) != before:
             raise Violation(f"rendering changed the {cls}")
         labels = None
